@@ -99,6 +99,19 @@ func p384Adapter() *adapter {
 		return xy{x, y}
 	}
 	ad.isIdentity = func(p pt) bool { return c.IsAtInfinity(p.(xy).x, p.(xy).y) }
+	ad.observers = []observer{
+		{"IsOnCurve", func(p, q pt) string {
+			return fmt.Sprint(c.IsOnCurve(p.(xy).x, p.(xy).y) || c.IsAtInfinity(p.(xy).x, p.(xy).y))
+		}, wantTrue},
+		{"IsAtInfinity", func(p, q pt) string { return fmt.Sprint(c.IsAtInfinity(p.(xy).x, p.(xy).y)) }, wantId},
+		{"used-as-operand", func(p, q pt) string {
+			c.Add(p.(xy).x, p.(xy).y, q.(xy).x, q.(xy).y)
+			c.Double(p.(xy).x, p.(xy).y)
+			c.ScalarMult(p.(xy).x, p.(xy).y, []byte{7})
+			c.CombinedMult(p.(xy).x, p.(xy).y, []byte{3}, []byte{5})
+			return "true"
+		}, wantTrue},
+	}
 	ad.aliasOps = []aliasOp{
 		// the same big.Int objects as both operands
 		{"Add(x,y,x,y)", func(P, Q pt, k *big.Int) pt { p := P.(xy); x, y := c.Add(p.x, p.y, p.x, p.y); return xy{x, y} }, expDbl},
@@ -252,6 +265,27 @@ func nistGroupAdapter(g group.Group, ref *curves.WCurve) *adapter {
 	ad.neg = func(p pt) pt { return g.NewElement().Neg(p.(group.Element)) }
 	ad.mul = func(k *big.Int, p pt) pt { return g.NewElement().Mul(p.(group.Element), sc(k)) }
 	ad.mulgen = func(k *big.Int) pt { return g.NewElement().MulGen(sc(k)) }
+	ad.observers = []observer{
+		{"MarshalBinary", func(p, q pt) string { b, _ := p.(group.Element).MarshalBinary(); return hex.EncodeToString(b) }, wantEnc},
+		{"MarshalBinaryCompress+Unmarshal", func(p, q pt) string {
+			b, _ := p.(group.Element).MarshalBinaryCompress()
+			e := g.NewElement()
+			if err := e.UnmarshalBinary(b); err != nil {
+				return err.Error()
+			}
+			return ad.enc(e)
+		}, wantEnc},
+		{"IsIdentity", func(p, q pt) string { return fmt.Sprint(p.(group.Element).IsIdentity()) }, wantId},
+		{"IsEqual", func(p, q pt) string { return fmt.Sprint(p.(group.Element).IsEqual(q.(group.Element))) }, wantEq},
+		{"Copy", func(p, q pt) string { return ad.enc(p.(group.Element).Copy()) }, wantEnc},
+		{"String", func(p, q pt) string { _ = fmt.Sprint(p); return "true" }, wantTrue},
+		{"used-as-operand", func(p, q pt) string {
+			_ = g.NewElement().Add(p.(group.Element), q.(group.Element))
+			_ = g.NewElement().Dbl(p.(group.Element))
+			_ = g.NewElement().Neg(p.(group.Element))
+			return "true"
+		}, wantTrue},
+	}
 	ad.isEqual = func(p, q pt) bool { return p.(group.Element).IsEqual(q.(group.Element)) }
 	ad.isIdentity = func(p pt) bool { return p.(group.Element).IsIdentity() }
 	ad.aliasOps = []aliasOp{
